@@ -371,6 +371,9 @@ pub fn run(ctx: &mut Ctx) {
             }
             cases.push((format!("chain {} deep", depth), t));
         }
+        if !big_stacks_available() {
+            cases.clear();
+        }
         for (label, t) in cases {
             idx += 1;
             if !ctx.mine(idx) {
